@@ -29,7 +29,19 @@ type request struct {
 	// with a known length; see framings in framing.go). A request with a
 	// Framing is always judged against the same request without one.
 	Framing string `json:"framing,omitempty"`
+	// Extra: a further request header ("Name: value") that the statement
+	// gives no say in what is answered (Prefer, Brief, Accept, ...).
+	Extra string `json:"extra,omitempty"`
 }
+
+// extraHeaders must leave the answer as it is: the statement accounts for
+// every named property whatever else the request carries.
+var extraHeaders = []string{"Prefer: return=minimal", "Prefer: return=representation", "Prefer: respond-async, return=minimal; foo=bar", "prefer: RETURN=MINIMAL",
+	"Brief: t", "Accept: text/plain", "Accept-Encoding: gzip", "X-Requested-With: XMLHttpRequest", "If-None-Match: *", "Cache-Control: no-cache",
+	"Accept-Charset: iso-8859-1", "Expect: ", "Range: bytes=0-10", "Content-Language: de"}
+
+// otherCTs: Content-Type values that are not XML, on a request without a body.
+var otherCTs = []string{"application/octet-stream", "text/plain", "application/x-www-form-urlencoded", "text/plain; charset=utf-8", "application/json", "multipart/form-data; boundary=x", "*/*", "garbage"}
 
 var fsSegs = []string{"a", "b.txt", "c d", "é", "x%41", "q?x", "h#1", "s;c", "a&b", "a+b", "a:b", "~t", "(p)", "[b]",
 	"ü ñ.html", "%zz", "data.json", "img.png", "UPPER", "a'b", "a\"b", "a<b>", "e=f", "@at", "x,y", "sub", "deep", "0"}
@@ -352,6 +364,10 @@ func genDavWorld(r *rand.Rand, server string) world {
 			if pick() {
 				o.Len = 1 + int64(r.Intn(100000))
 			}
+			if server == srvCal && r.Intn(9) == 0 {
+				// held by the backend, refused by the iCalendar encoder
+				o.Unenc = 1 + r.Intn(2)
+			}
 			d.Objs = append(d.Objs, o)
 		}
 	}
@@ -529,6 +545,11 @@ func genRequest(r *rand.Rand, e *env, t int) request {
 		q.CT = ""
 	case k < 33:
 		q.Form = "empty-xmlct"
+		if r.Intn(2) == 0 {
+			// no body, a Content-Type that is not XML: still an empty body
+			q.Form = "empty"
+			q.CT = otherCTs[r.Intn(len(otherCTs))]
+		}
 	case k < 36:
 		q.Form = "none"
 		q.Body = noneBody(r, lx)
@@ -555,6 +576,9 @@ func genRequest(r *rand.Rand, e *env, t int) request {
 		if r.Intn(2) == 0 {
 			q.CT = ""
 		}
+	}
+	if r.Intn(6) == 0 {
+		q.Extra = extraHeaders[r.Intn(len(extraHeaders))]
 	}
 	return q
 }
